@@ -80,9 +80,11 @@ func (s *zzSelf) Run(ctx app.IOContext) error {
 	switch what {
 	case "fail":
 		err = errors.New(who + " failed")
-	case "spawnok", "spawnfail":
+	case "slow":
+		nd.Pause() // a long-running nested task
+	case "spawnok", "spawnfail", "spawn2":
 		sub := "nested:ok"
-		if what == "spawnfail" {
+		if what == "spawnfail" || what == "spawn2" {
 			sub = "nested:fail"
 		}
 		cio := ctx.IO()
@@ -91,6 +93,14 @@ func (s *zzSelf) Run(ctx app.IOContext) error {
 			Name:    "nested", Namespaces: namespaces.NewNamespaces(pipservices.NamasepacesParams{Task: "n"}),
 			Sandbox: "self",
 		})
+		if what == "spawn2" && err == nil {
+			// a second, slow and succeeding nested task next to the failing one
+			err = s.runner().Run(pipservices.Pip{
+				Context: pipservices.PipContext{In: gio.NewInput(strings.NewReader("nested2:slow")), Out: cio.Out(), Err: cio.Err(), CWD: cio.CWD(), Scope: ctx.Scope()},
+				Name:    "nested2", Namespaces: namespaces.NewNamespaces(pipservices.NamasepacesParams{Task: "n"}),
+				Sandbox: "self",
+			})
+		}
 	}
 	s.log.add("end:" + who)
 	return err
@@ -112,8 +122,17 @@ func (m *zzBoxes) Get(name string) (pipservices.Sandbox, error) {
 // preemptions: success handler iff body ok, fail handler iff body failed,
 // finally always, handlers start after the body and its nested task ended,
 // and the surrounding scope is failed only by a failing handler.
-func ZZVerifC16Try() {
-	nd.Schedule(nd.Param("P", 1))
+func ZZVerifC16Try() { zzTry(nd.Param("P", 1), 0, nd.Param("B", 4), true, "C16/try-end") }
+
+// ZZVerifC16Nested: the body spawns a nested task (succeeding or failing);
+// or two nested tasks - a failing one next to a slow succeeding one;
+// any subset of (non-failing) handlers: handlers start only after the body
+// AND the task it spawned have finished, the matching handler runs, a failing
+// nested task fails the body but not the surrounding scope.
+func ZZVerifC16Nested() { zzTry(nd.Param("NP", 1), 2, 3, false, "C16/nested-end") }
+
+func zzTry(pBound, bodyBase, bodyN int, handlersMayFail bool, endLabel string) {
+	nd.Schedule(pBound)
 	nd.Races()
 	log := &zzLog{}
 	var r pipservices.Runner
@@ -127,15 +146,15 @@ func ZZVerifC16Try() {
 	nd.Assume(dp.Set("PipTasksUnit", pipservices.TasksUnit(tUnit)) == nil)
 	a := zzApp{dp: dp}
 
-	bodyKind := nd.Choose("body", nd.Param("B", 4)) // ok, fail, spawnok, spawnfail
-	body := []string{"body:ok", "body:fail", "body:spawnok", "body:spawnfail"}[bodyKind]
+	bodyKind := bodyBase + nd.Choose("body", bodyN) // ok, fail, spawnok, spawnfail
+	body := []string{"body:ok", "body:fail", "body:spawnok", "body:spawnfail", "body:spawn2"}[bodyKind]
 	args := datascope.New(map[interface{}]interface{}{})
 	args.SetValue("name", "t")
 	args.SetValue("body", body)
 	handler := func(key string) (present, fails bool) {
 		present = nd.Bool(key + "-present")
 		if present {
-			fails = nd.Bool(key + "-fails")
+			fails = handlersMayFail && nd.Bool(key+"-fails")
 			w := key + ":ok"
 			if fails {
 				w = key + ":fail"
@@ -160,7 +179,7 @@ func ZZVerifC16Try() {
 	}
 	nd.Quiesce()
 
-	bodyFailed := bodyKind == 1 || bodyKind == 3
+	bodyFailed := bodyKind == 1 || bodyKind == 3 || bodyKind == 4
 	nd.Assert(log.count("begin:body") == 1, "C16/body-runs-once")
 	wantS, wantF := sPresent && !bodyFailed, fPresent && bodyFailed
 	// class of the known finding C16-KF1: the finally handler is submitted
@@ -178,6 +197,12 @@ func ZZVerifC16Try() {
 	if n := log.index("end:nested"); n > lastBody {
 		lastBody = n
 	}
+	if n := log.index("end:nested2"); n > lastBody {
+		lastBody = n
+	}
+	if bodyKind == 4 {
+		nd.Assert(log.count("begin:nested2") == 1 && log.count("end:nested2") == 1, "C16/second-nested-task-runs")
+	}
 	if bodyKind >= 2 {
 		nd.Assert(log.count("begin:nested") == 1, "C16/nested-task-runs")
 	}
@@ -189,5 +214,5 @@ func ZZVerifC16Try() {
 	// containment: only a failing handler that ran fails the surrounding scope
 	handlerFailed := (wantS && sFails) || (wantF && fFails) || (yPresent && yFails)
 	nd.Assert((len(outer.Errors()) > 0) == handlerFailed, "C16/outer-scope-failed-iff-handler-failed")
-	nd.Reach("C16/try-end")
+	nd.Reach(endLabel)
 }
